@@ -5,7 +5,6 @@
 //!  (b) order: all short sequences of queries on ONE solver object; each answer equals the answer
 //!      of a fresh object and is valid; the framework's concrete state is unchanged.
 
-use crate::checks::c12::canon;
 use crate::checks::c16::{external_sweep, graphs_for_external};
 use crate::checks::static_checks::{full_tree, s_family, small_universe};
 use crate::choicesat::{catch, explore, Exec, ExploreStats, FvPolicy};
@@ -167,7 +166,7 @@ impl<'a> BuiltVisitor for Order<'a> {
         if n == 0 {
             return;
         }
-        let before = canon(&b.af);
+        let before = snapshot(b);
         let mut done: Vec<(String, Enc)> = vec![];
         for sem in ALL_SEMS {
             for kind0 in [QKind::SE, QKind::DC, QKind::DS] {
@@ -273,12 +272,12 @@ impl<'a> BuiltVisitor for Order<'a> {
                 }
             }
         }
-        let after = canon(&b.af);
+        let after = snapshot(b);
         if before != after {
             self.acc.add(Violation {
                 property: "C06".into(),
                 key: "part=order;what=framework_modified_by_queries".into(),
-                message: format!("queries modified the framework {} [{}]: before {} after {}", self.g.describe(), self.pres.name(), before, after),
+                message: format!("queries modified the framework {} [{}]: before {:?} after {:?}", self.g.describe(), self.pres.name(), before, after),
                 case: json!({"engine": "order", "graph": self.g.to_json(), "presentation": self.pres.name()}),
             });
         }
@@ -291,6 +290,15 @@ impl<'a> BuiltVisitor for Order<'a> {
             });
         }
     }
+}
+
+/// everything observable of a framework: arguments (label, id) in iteration order, attacks as a
+/// multiset, counts (internal caches, if any, are not part of it)
+pub fn snapshot<T: LabelType>(b: &Built<T>) -> (Vec<(String, usize)>, Vec<(usize, usize)>, usize, usize, Option<usize>) {
+    let args: Vec<(String, usize)> = b.af.argument_set().iter().map(|a| (a.label().to_string(), a.id())).collect();
+    let mut atts: Vec<(usize, usize)> = b.af.iter_attacks().map(|a| (a.attacker().id(), a.attacked().id())).collect();
+    atts.sort();
+    (args, atts, b.af.n_arguments(), b.af.n_attacks(), b.af.max_argument_id())
 }
 
 pub fn consistent<T: LabelType>(b: &Built<T>) -> Result<(), String> {
@@ -388,7 +396,7 @@ pub fn run(tier: Tier) -> i32 {
             rep.add_violation(v);
         }
     }
-    rep.rule = "(a) for every graph of U(<=3), problem and argument: the statuses of ALL cells {selectable encoders + library default} x {CaDiCaL, every leaf of the complete oracle choice tree} x {with, without certificate} must coincide (no reference involved), external-process cells are judged against the reference; (b) every sequence of <=3 (U(<=2)) / 2 (U(3), S) queries from a menu {SE, DC(a), DS(a), with/without certificate, lists} on ONE solver object per (solver type, encoder): every answer must have the status a fresh object gives and be valid, and the framework's concrete state must be unchanged; states = sequences, transitions = queries; distinct_nontrivial = sequences + graphs with >=2 preferred extensions".into();
+    rep.rule = "(a) for every graph of U(<=3), problem and argument: the statuses of ALL cells {selectable encoders + library default} x {CaDiCaL, every leaf of the complete oracle choice tree} x {with, without certificate} must coincide (no reference involved), external-process cells are judged against the reference; (b) every sequence of <=3 (U(<=2)) / 2 (U(3), S) queries from a menu {SE, DC(a), DS(a), with/without certificate, lists} on ONE solver object per (solver type, encoder): every answer must have the status a fresh object gives and be valid, and everything observable of the framework (arguments, ids, attacks, counts) must be unchanged; states = sequences, transitions = queries; distinct_nontrivial = sequences + graphs with >=2 preferred extensions".into();
     rep.bounds = json!({"sequence_length": "3 on U(<=2), 2 on U(3) and S (3 in thorough)"});
     rep.assumptions = vec!["same trusted base as C01; the external backend is the harness's stand-in program".into()];
     rep.finish()
